@@ -3,3 +3,4 @@ from . import rules_p  # noqa: F401
 from . import rules_d  # noqa: F401
 from . import rules_x  # noqa: F401
 from . import rules_t  # noqa: F401
+from . import rules_g  # noqa: F401
